@@ -16,6 +16,7 @@ var sigmaChar = []string{"{", "%", "}", "-", `"`, " ", "\n", "a"}
 
 var c05 struct {
 	eng   *liquid.Engine
+	alt   *liquid.Engine // the same engine with the delimiters [[ ]] [% %]
 	calls int
 }
 
@@ -142,6 +143,33 @@ func c05Families(tier string) []explore.Family {
 			r.Violation(c05BodyKey("P5:comment-body-ignored", src, "endcomment"), map[string]any{"template": src}, `"MARK"`, o.String())
 		}
 	}})
+	// raw and comment bodies are opaque for EVERY engine of the process: an engine with the delimiters
+	// [[ ]] [% %] and the default engine take turns on isomorphic bodies ({ } spelled [ ]), and the custom
+	// engine also gets the default-spelled body, which is plain text for it.
+	swap := strings.NewReplacer("{", "[", "}", "]")
+	fams = append(fams, explore.Family{Name: "raw-and-comment-body-two-engines", Count: seqCount(K, Lr-1), Run: func(i int64, r *explore.Rec) {
+		s := str(i)
+		cs := swap.Replace(s)
+		type tc struct {
+			eng       *liquid.Engine
+			src, want string
+			key       string
+		}
+		for _, c := range []tc{
+			{c05.alt, "[% raw %]" + cs + "[% endraw %]", cs, "P4:raw-body-verbatim:custom-delimiters"},
+			{c05.eng, "{% raw %}" + s + "{% endraw %}", s, "P4:raw-body-verbatim:after-custom-engine"},
+			{c05.alt, "[% comment %]" + cs + "[% endcomment %]MARK", "MARK", "P5:comment-body-ignored:custom-delimiters"},
+			{c05.eng, "{% comment %}" + s + "{% endcomment %}MARK", "MARK", "P5:comment-body-ignored:after-custom-engine"},
+			{c05.alt, "[% raw %]" + s + "[% endraw %]", s, "P4:raw-body-verbatim:default-spelling-in-custom-engine"},
+		} {
+			r.Eval()
+			o := Render(c.eng, c.src, map[string]any{})
+			r.Class("two-engines/" + o.Class())
+			if o.Panic != nil || o.Err != nil || o.Out != c.want {
+				r.Violation(c.key, map[string]any{"template": c.src, "custom_delimiters": c.eng == c05.alt}, strconv.Quote(c.want), o.String())
+			}
+		}
+	}})
 	// comment bodies with syntax errors, unknown tags, unbalanced blocks, failing filters and evaluation probes
 	lexN := 3
 	if tier == "thorough" {
@@ -263,6 +291,7 @@ func init() {
 			c05.eng = liquid.NewEngine()
 			c05.eng.RegisterFilter("probe", func(v any) any { c05.calls++; return v })
 			c05.eng.RegisterFilter("fail", func(v any) (any, error) { c05.calls++; return nil, fmt.Errorf("fail filter evaluated") })
+			c05.alt = liquid.NewEngine().Delims("[[", "]]", "[%", "%]")
 		},
 		Families: c05Families,
 		Bound: func(tier string) string {
